@@ -454,7 +454,8 @@ def design_level(res, wd, prop, tier):
     """MapperSpecMC: the same predicates on the specification itself, at bounds beyond the tabulated ones (4 keys held, 8 keys)."""
     keys8 = F.KEYS7 + ["E"]
     jobs = [F.job("spec-empty", [], keys=keys8, maxheld=4)]
-    small = F.small_family("spec", F.anyl, 1, 30, None, 0, 0, ones=False)
+    pred = {"C03": F.no_abs, "C04": F.no_abs, "C07": F.has_norep, "C09": F.has_special, "C08": F.has_abs}.get(prop, F.anyl)
+    small = F.small_family("spec", pred, 1, 30, None, 0, 0, ones=False)
     for j in small[:120]:
         jobs.append(dict(j, keys=[k for k in j["keys"]] + ["E"], maxheld=4))
     nproc = PROCS
@@ -540,7 +541,7 @@ def check(prop, tier):
             # C03, C04, C05, C07, C08 by what reaches the device event by event (bursts; an event left unread, a step's output not written: e2.DELIVERY)
             import e2
             res.coverage.update(e2.loop_level(res, exe, wd, tier, prop))
-        if tier == "thorough" and prop in ("C01", "C02", "C19") and not res.violations and not res.tool_errors:
+        if tier == "thorough" and prop in ("C01", "C02", "C19", "C03", "C04", "C05", "C07", "C08", "C09") and not res.violations and not res.tool_errors:
             res.coverage.update(design_level(res, wd, prop, tier))
         res.assumptions = ["bounded: at most maxheld (3, some 4) keys physically held, alphabets of 6-8 keys",
                            "the snapshot hook returns the mapper's real fields", "TLC and the CommunityModules JSON reader"]
